@@ -68,8 +68,8 @@ func init() {
 		Pkg: "broker", Test: "TestC20", QuickBatches: 8, ThoroughBatches: 32,
 		QuickTimeoutS: 300, ThoroughTimeoutS: 1800, GoMaxProcs: []int{2}, Parallel: 16,
 		Level: "fault_enumeration", DesignRef: "DESIGN.md section 4, C20",
-		Technique: "runtime monitoring with single-fault enumeration: registry states produced by random histories next to a reference model; Reopen counted per node object; each captured node object is made to fail in turn",
-		LevelText: "Fault enumeration by execution: registry states reached by seeded random histories of up to 8 calls (+prologue; 3 types, shared nodes, overwritten node ids whose old objects are still captured by older pipeline versions, removed pipelines) are tracked by a reference model that knows which node OBJECTS each registered pipeline captured. Without faults Broker.Reopen must return nil and every captured object's Reopen count must grow; then for EACH captured object in turn its Reopen returns a unique error and Broker.Reopen must return a non-nil error that carries it (errors.Is or its unique token); objects captured by no registered pipeline may fail without consequence.",
+		Technique: "runtime monitoring with single-fault enumeration: registry states produced by random histories next to a reference model; Reopen counted per node object; each captured node object is made to fail in turn; Reopen under done contexts",
+		LevelText: "Fault enumeration by execution: registry states reached by seeded random histories of up to 8 calls (+prologue; 3 types, shared nodes, overwritten node ids whose old objects are still captured by older pipeline versions, removed pipelines) are tracked by a reference model that knows which node OBJECTS each registered pipeline captured. Without faults Broker.Reopen must return nil and every captured object's Reopen count must grow; then for EACH captured object in turn its Reopen returns a unique error and Broker.Reopen must return a non-nil error that carries it (errors.Is or its unique token); objects captured by no registered pipeline may fail without consequence. Additionally Broker.Reopen is called with an already cancelled context and with a context that the first node reached cancels: a nil result must still have reached every captured object (a non-nil result under a done context is counted and not judged).",
 		LevelNote: "Trusted: reference model and recording nodes. The fault space (which single object fails) is enumerated completely for every generated state; the state space is sampled.",
 		Rule:      "seeded random registry histories; per state: 1 fault-free Reopen + one Reopen per captured object failing + one with all unreferenced objects failing. Non-trivial = state with >=2 captured objects; distinct = distinct history.",
 	})
@@ -92,9 +92,9 @@ func init() {
 		Pkg: "broker", Test: "TestC12", QuickBatches: 8, ThoroughBatches: 32,
 		QuickTimeoutS: 400, ThoroughTimeoutS: 2400, GoMaxProcs: []int{4, 16, 2}, Parallel: 16,
 		Level: "exploration", DesignRef: "DESIGN.md section 4, C12",
-		Technique: "runtime monitoring with schedule forcing: re-entrant nodes and the library's gated filter wired to the same Broker, a writer forced to be parked on the Broker lock (seen in a goroutine dump) before the callback re-enters, watchdog with blocked-state witness from goroutine dumps, probe calls afterwards",
-		LevelText: "Exploration by execution: every Broker operation that runs node code (Send->Process, Reopen->Reopen, RemoveNode/RemovePipelineAndNodes->Close) x a node that re-enters Send on the same Broker from that callback, x the library's gated.Filter with 0..3 pending groups flushing through the same Broker from Close (removed via RemovePipelineAndNodes and via RemovePipeline+RemoveNode) and from Process (expired groups), each with and without a concurrent writer (RegisterNode, or the threshold setters of the outer event type) that the harness first makes sure is parked on a lock; plus refused/failed calls of every kind. After each scenario a probe RegisterNode and a probe Send must return ('never permanently locked') and parked writers must get through. 'Bounded time' is restated as: returns before the watchdog unless the goroutine is provably parked forever (same parked state with library frames in two dumps) - only then a violation; otherwise inconclusive.",
+		Technique: "runtime monitoring with schedule forcing: re-entrant nodes and the library's gated filter wired to the same Broker, a writer forced to be parked on the Broker lock (seen in a goroutine dump) before the callback re-enters, watchdog with blocked-state witness from goroutine dumps, probe calls afterwards; writers of three kinds (RegisterNode, threshold setters, pipeline changes on the same event type) and injected failures of the re-entrant Send",
+		LevelText: "Exploration by execution: every Broker operation that runs node code (Send->Process, Reopen->Reopen, RemoveNode/RemovePipelineAndNodes->Close) x a node that re-enters Send on the same Broker from that callback, x the library's gated.Filter with 0..3 pending groups flushing through the same Broker from Close (removed via RemovePipelineAndNodes and via RemovePipeline+RemoveNode) and from Process (expired groups), each with and without a concurrent writer (RegisterNode, or the threshold setters of the outer event type) that the harness first makes sure is parked on a lock; plus refused/failed calls of every kind. After each scenario a probe RegisterNode and a probe Send must return ('never permanently locked') and parked writers must get through. 'Bounded time' is restated as: returns before the watchdog unless the goroutine is provably parked forever (same parked state with library frames in two dumps) - only then a violation; otherwise inconclusive. Added after seeded-change rounds: the waiting writer is, besides RegisterNode and the threshold setters, a RegisterPipeline+RemovePipeline on the very event type whose Send/Reopen/removal is in flight; the gated filter's re-entrant Send is made to fail for the first 1..n groups (as a Broker whose threshold is unmet does) during expiry in Process and during Close from the removal calls; and after every gated scenario a further gateable event is sent through the filter and the pipeline removed, each under the watchdog, so a filter left holding its own lock is seen as a Broker call that never returns.",
 		LevelNote: "Trusted: goroutine dump parsing, watchdog 8 s. The interleaving 'writer queued between outer and inner read lock' is forced, not hoped for; other schedules are sampled by repetition and GOMAXPROCS variation.",
-		Rule:      "fixed scenario list (op x callback x writer x pending groups = 52 scenarios + 20 with a threshold setter as the writer) repeated 4x (quick) / 60x (thorough) across GOMAXPROCS values; distinct = distinct scenario.",
+		Rule:      "fixed scenario list (op x callback x writer x pending groups = 52 scenarios, + 20 each with a threshold setter resp. a pipeline change on the same event type as the writer, + 36 with failing re-entrant sends = 132 scenarios) repeated 4x (quick) / 60x (thorough) across GOMAXPROCS values; distinct = distinct scenario.",
 	})
 }
